@@ -459,6 +459,19 @@ def run_family(res, prop, prop_mod, cases, rule="", extra_real_oracle=None, sign
         for i, r in bad[:1]:
             res.violation(r[0], r[1], {"case": cases[i], "real_outs": outs[i]["outs"]})
             found = True
+    if not found and untok:
+        # the real output left the Coq terminal's alphabet: look for a failing point with the Python terminal (a search
+        # for a replayable input, not an obligation)
+        from . import widevt
+        for i in untok[:400]:
+            if outs[i].get("panic"):
+                continue
+            hit = widevt.replay_history(cases[i], outs[i]["outs"])
+            if hit:
+                res.violation("%s:screen-wrong:outside-alphabet" % prop, "the renderer wrote a sequence outside the modelled subset and %s (at op %d)" % (hit[1], hit[0]),
+                              {"case": cases[i], "real_outs": outs[i]["outs"]})
+                found = True
+                break
     if not found and (not proofs_ok or bad_model or untok):
         what = []
         if not proofs_ok:
